@@ -82,7 +82,22 @@ Print Assumptions C04_sdes_count_exceeds_any_length.
 (* BEGIN source-translation (generated by tools/mksourceprops.py; do not edit by hand) *)
 (* Unmarshal of each type, as translated from the Go source text on this run, is the model function the theorems above are about (zero-valued receiver; the _gen/_any forms say what a receiver that already holds data contributes).
    Gen/Funcs.v (module GoSrc) is written by srcgen/trans.go from /repo on every run; Lib/GoSem.v gives the meaning of its primitives. *)
-From RTCP Require Import Lib.Base Lib.GoSem Gen.Consts Gen.Funcs Model.Header Model.Reports Model.Sdes Model.ByeApp Model.Feedback Model.Twcc Model.Ccfb Model.Packet Proofs.SourceEquiv Proofs.SrcConv Proofs.SourceByeApp Proofs.SourceCcfb Proofs.SourceFeedback1 Proofs.SourceFeedback2 Proofs.SourceRR Proofs.SourceSR Proofs.SourceSdes Proofs.SourceTwccDec.
+From RTCP Require Import Proofs.Tactics Lib.GoSem Gen.Funcs Check.GoOpaque Proofs.GoSemFacts Proofs.HeaderProofs
+  Model.Header Model.Reports Model.Sdes Model.ByeApp Model.Feedback Model.Twcc Model.Ccfb Model.Remb Model.Xr Model.Packet
+  Spec.Enc Spec.XrSpec Spec.Laws Proofs.Dgram Proofs.Assemble Proofs.Guards Proofs.PacketLevel Proofs.Reencode
+  Proofs.Misc Proofs.Extras Proofs.EncFeedback Proofs.Image1 Proofs.Image2 Proofs.Image3 Proofs.EncTwcc Proofs.TwccCorollaries Proofs.Total1 Proofs.Total2 Proofs.Total3
+  Proofs.SourceEquiv Proofs.SrcConv Proofs.SourceSR Proofs.SourceRR Proofs.SourceSdes Proofs.SourceByeApp
+  Proofs.SourceFeedback1 Proofs.SourceFeedback2 Proofs.SourceCcfb Proofs.SourceTwccEnc Proofs.SourceTwccDec
+  Proofs.SourcePacket Proofs.SourceCompound Proofs.SourceCompoundClosed.
+From RTCP Require Import Proofs.Tactics Lib.GoSem Gen.Funcs Check.GoOpaque Proofs.GoSemFacts Proofs.HeaderProofs
+  Model.Header Model.Reports Model.Sdes Model.ByeApp Model.Feedback Model.Twcc Model.Ccfb Model.Remb Model.Xr Model.Packet
+  Spec.Enc Spec.XrSpec Spec.Laws Spec.NackSpec Proofs.NackEnum Proofs.NackProofs
+  Proofs.Units Proofs.EncReports Proofs.EncSdesByeApp Proofs.EncFeedback Proofs.EncCcfbRemb Proofs.EncTwcc Proofs.TwccCorollaries
+  Proofs.Variants Proofs.PacketLevel Proofs.Extras
+  Proofs.SourceEquiv Proofs.SrcConv Proofs.SourceCorollaries Proofs.SourceSR Proofs.SourceRR Proofs.SourceSdes Proofs.SourceByeApp
+  Proofs.SourceFeedback1 Proofs.SourceFeedback2 Proofs.SourceCcfb Proofs.SourceTwccEnc Proofs.SourceTwccDec
+  Proofs.SourcePacket Proofs.SourceCompound Proofs.SourceCompoundClosed Proofs.SourceTheorems.
+From RTCP Require Import Lib.Base Lib.GoSem Gen.Consts Gen.Funcs Model.Header Model.Reports Model.Sdes Model.ByeApp Model.Feedback Model.Twcc Model.Ccfb Model.Packet Proofs.SourceEquiv Proofs.SrcConv Proofs.SourceByeApp Proofs.SourceCcfb Proofs.SourceFeedback1 Proofs.SourceFeedback2 Proofs.SourceRR Proofs.SourceSR Proofs.SourceSdes Proofs.SourceTwccEnc Proofs.SourceTwccDec Proofs.SourcePacket Proofs.SourceCompound Proofs.SourceCompoundClosed Proofs.SourceTheorems Proofs.SourceTheorems2.
 Module C04_SourceByeApp.
 Import Proofs.SourceByeApp.
 Local Open Scope Z_scope.
@@ -266,6 +281,116 @@ Theorem C04_source_SourceDescription_Unmarshal : forall b,
 Proof. exact src_SourceDescription_Unmarshal. Qed.
 Print Assumptions C04_source_SourceDescription_Unmarshal.
 End C04_SourceSdes.
+Module C04_SourceTheorems2.
+Import Proofs.SourceTheorems2.
+Local Open Scope N_scope.
+Theorem C04_src_reference_encoding : forall p, supported p = true -> in_D p = true ->
+  GoSrc.Packet_Unmarshal (zero_packet (tag_of_packet p)) (enc_spec p) = Ok (src_packet (q p)).
+Proof. exact source_C04_reference_encoding. Qed.
+Print Assumptions C04_src_reference_encoding.
+Theorem C04_src_reference_encoding_SenderReport : forall x, D_SR x = true ->
+  GoSrc.SenderReport_Unmarshal GoSrc.zero_SenderReport (enc_SR x) = Ok (src_sr x).
+Proof. exact source_C04_reference_encoding_SenderReport. Qed.
+Print Assumptions C04_src_reference_encoding_SenderReport.
+Theorem C04_src_reference_encoding_ReceiverReport : forall x, D_RR x = true ->
+  GoSrc.ReceiverReport_Unmarshal GoSrc.zero_ReceiverReport (enc_RR x) = Ok (src_rr (q_RR x)).
+Proof. exact source_C04_reference_encoding_ReceiverReport. Qed.
+Print Assumptions C04_src_reference_encoding_ReceiverReport.
+Theorem C04_src_reference_encoding_SourceDescription : forall x, D_SDES x = true ->
+  GoSrc.SourceDescription_Unmarshal GoSrc.zero_SourceDescription (enc_SDES x) = Ok (src_sdes x).
+Proof. exact source_C04_reference_encoding_SourceDescription. Qed.
+Print Assumptions C04_src_reference_encoding_SourceDescription.
+Theorem C04_src_reference_encoding_Goodbye : forall x, D_BYE x = true ->
+  GoSrc.Goodbye_Unmarshal GoSrc.zero_Goodbye (enc_BYE x) = Ok (src_bye x).
+Proof. exact source_C04_reference_encoding_Goodbye. Qed.
+Print Assumptions C04_src_reference_encoding_Goodbye.
+Theorem C04_src_reference_encoding_ApplicationDefined : forall x a0, D_APP x = true ->
+  GoSrc.ApplicationDefined_Unmarshal a0 (enc_APP x) = Ok (src_app x).
+Proof. exact source_C04_reference_encoding_ApplicationDefined. Qed.
+Print Assumptions C04_src_reference_encoding_ApplicationDefined.
+Theorem C04_src_reference_encoding_TransportLayerNack : forall x, D_NACK x = true ->
+  GoSrc.TransportLayerNack_Unmarshal GoSrc.zero_TransportLayerNack (enc_NACK x) = Ok (src_nack x).
+Proof. exact source_C04_reference_encoding_TransportLayerNack. Qed.
+Print Assumptions C04_src_reference_encoding_TransportLayerNack.
+Theorem C04_src_reference_encoding_RapidResynchronizationRequest : forall x p0, D_RRR x = true ->
+  GoSrc.RapidResynchronizationRequest_Unmarshal p0 (enc_RRR x) = Ok (src_rrr x).
+Proof. exact source_C04_reference_encoding_RapidResynchronizationRequest. Qed.
+Print Assumptions C04_src_reference_encoding_RapidResynchronizationRequest.
+Theorem C04_src_reference_encoding_PictureLossIndication : forall x p0, D_PLI x = true ->
+  GoSrc.PictureLossIndication_Unmarshal p0 (enc_PLI x) = Ok (src_pli x).
+Proof. exact source_C04_reference_encoding_PictureLossIndication. Qed.
+Print Assumptions C04_src_reference_encoding_PictureLossIndication.
+Theorem C04_src_reference_encoding_FullIntraRequest : forall x, D_FIR x = true ->
+  GoSrc.FullIntraRequest_Unmarshal GoSrc.zero_FullIntraRequest (enc_FIR x) = Ok (src_fir x).
+Proof. exact source_C04_reference_encoding_FullIntraRequest. Qed.
+Print Assumptions C04_src_reference_encoding_FullIntraRequest.
+Theorem C04_src_reference_encoding_CCFeedbackReport : forall x p0, D_CCFB x = true ->
+  (GoSrc.CCFeedbackReport_Len (src_ccfb x) <= 262140)%Z ->
+  GoSrc.CCFeedbackReport_Unmarshal p0 (enc_CCFB x) = Ok (src_ccfb x).
+Proof. exact source_C04_reference_encoding_CCFeedbackReport. Qed.
+Print Assumptions C04_src_reference_encoding_CCFeedbackReport.
+Theorem C04_src_twcc_any_valid_chunking : forall t, D_TWCC t = true ->
+  GoSrc.TransportLayerCC_Unmarshal GoSrc.zero_TransportLayerCC (enc_TWCC t) = Ok (src_twcc t).
+Proof. exact source_C04_twcc_any_valid_chunking. Qed.
+Print Assumptions C04_src_twcc_any_valid_chunking.
+Theorem C04_src_twcc_chunkings_agree : forall t1 t2, D_TWCC t1 = true -> D_TWCC t2 = true ->
+  statuses t1 = statuses t2 -> tw_deltas t1 = tw_deltas t2 ->
+  exists d1 d2,
+    GoSrc.TransportLayerCC_Unmarshal GoSrc.zero_TransportLayerCC (enc_TWCC t1) = Ok (src_twcc d1) /\
+    GoSrc.TransportLayerCC_Unmarshal GoSrc.zero_TransportLayerCC (enc_TWCC t2) = Ok (src_twcc d2) /\
+    statuses d1 = statuses d2 /\ tw_deltas d1 = tw_deltas d2 /\
+    GoSrc.TransportLayerCC_RecvDeltas (src_twcc d1) = GoSrc.TransportLayerCC_RecvDeltas (src_twcc d2).
+Proof. exact source_C04_twcc_chunkings_agree. Qed.
+Print Assumptions C04_src_twcc_chunkings_agree.
+Theorem C04_src_app_padded : forall a k fill a0, D_APP a = true -> len (app_data a) mod 4 = 0 -> 1 <= k <= 63 ->
+  len fill = 4 * k - 1 ->
+  GoSrc.ApplicationDefined_Unmarshal a0
+    (frame true (app_subtype a) 204 (be 4 (app_ssrc a) ++ app_name a ++ app_data a ++ fill ++ [n2b (4 * k)])) = Ok (src_app a).
+Proof. exact source_C04_app_padded. Qed.
+Print Assumptions C04_src_app_padded.
+Theorem C04_src_fir_reserved_bits : forall p rs, D_FIR p = true -> length rs = length (fir_entries p) ->
+  GoSrc.FullIntraRequest_Unmarshal GoSrc.zero_FullIntraRequest (enc_FIR_res p rs) = Ok (src_fir p).
+Proof. exact source_C04_fir_reserved_bits. Qed.
+Print Assumptions C04_src_fir_reserved_bits.
+Theorem C04_src_ccfb_not_received_stray_bits : forall b0 b1 m0, b2n b0 < 128 ->
+  GoSrc.CCFeedbackMetricBlock_unmarshal m0 [b0; b1] = Ok (src_metric {| mb_received := false; mb_ecn := 0; mb_offset := 0 |}).
+Proof. exact source_C04_ccfb_not_received_stray_bits. Qed.
+Print Assumptions C04_src_ccfb_not_received_stray_bits.
+Theorem C04_src_bye_empty_reason : forall g, D_BYE g = true -> bye_reason g = [] ->
+  GoSrc.Goodbye_Unmarshal GoSrc.zero_Goodbye
+    (frame false (nl (bye_sources g)) 203 (List.concat (map (be 4) (bye_sources g)) ++ [x00; x00; x00; x00])) = Ok (src_bye g).
+Proof. exact source_C04_bye_empty_reason. Qed.
+Print Assumptions C04_src_bye_empty_reason.
+Theorem C04_src_bye_extra_padding : forall g, D_BYE g = true ->
+  GoSrc.Goodbye_Unmarshal GoSrc.zero_Goodbye
+    (frame false (nl (bye_sources g)) 203 (pad4 (bye_body g) ++ [x00; x00; x00; x00])) = Ok (src_bye g).
+Proof. exact source_C04_bye_extra_padding. Qed.
+Print Assumptions C04_src_bye_extra_padding.
+Theorem C04_src_sr_count_exceeds : forall b, (len b - 28) / 24 < b2n (nth 0 b x00) mod 32 ->
+  GoSrc.SenderReport_Unmarshal GoSrc.zero_SenderReport b = Err.
+Proof. exact source_C04_sr_count_exceeds. Qed.
+Print Assumptions C04_src_sr_count_exceeds.
+Theorem C04_src_rr_count_exceeds : forall b, (len b - 8) / 24 < b2n (nth 0 b x00) mod 32 ->
+  GoSrc.ReceiverReport_Unmarshal GoSrc.zero_ReceiverReport b = Err.
+Proof. exact source_C04_rr_count_exceeds. Qed.
+Print Assumptions C04_src_rr_count_exceeds.
+Theorem C04_src_bye_count_exceeds : forall b, (len b - 4) / 4 < b2n (nth 0 b x00) mod 32 ->
+  GoSrc.Goodbye_Unmarshal GoSrc.zero_Goodbye b = Err.
+Proof. exact source_C04_bye_count_exceeds. Qed.
+Print Assumptions C04_src_bye_count_exceeds.
+Theorem C04_src_sdes_count_exceeds : forall b, len b mod 4 = 0 -> (len b - 4) / 8 < b2n (nth 0 b x00) mod 32 ->
+  GoSrc.SourceDescription_Unmarshal GoSrc.zero_SourceDescription b = Err.
+Proof. exact source_C04_sdes_count_exceeds. Qed.
+Print Assumptions C04_src_sdes_count_exceeds.
+Theorem C04_src_sdes_count_exceeds_any_length : forall b, (len b - 4 + 3) / 8 < b2n (nth 0 b x00) mod 32 ->
+  GoSrc.SourceDescription_Unmarshal GoSrc.zero_SourceDescription b = Err.
+Proof. exact source_C04_sdes_count_exceeds_any_length. Qed.
+Print Assumptions C04_src_sdes_count_exceeds_any_length.
+Theorem C04_src_sdes_count_exceeds_refuted : exists b s, (len b - 4) / 8 < b2n (nth 0 b x00) mod 32 /\
+  GoSrc.SourceDescription_Unmarshal GoSrc.zero_SourceDescription b = Ok s.
+Proof. exact source_C04_sdes_count_exceeds_refuted. Qed.
+Print Assumptions C04_src_sdes_count_exceeds_refuted.
+End C04_SourceTheorems2.
 Module C04_SourceTwccDec.
 Import Proofs.SourceTwccDec.
 Local Open Scope Z_scope.
